@@ -260,8 +260,8 @@ void RpcChannel::CallMethod(const MethodDescriptor *method,
     // fail any outstanding response with the same id
     OLA_WARN << "response " << old_response->id << " already pending, failing "
              << "now";
-    response->controller->SetFailed("Duplicate request found");
-    response->callback->Run();
+    old_response->controller->SetFailed("Duplicate request found");
+    old_response->callback->Run();
   }
 }
 
